@@ -134,7 +134,7 @@ impl OligoCase {
 }
 
 fn oligo_exec(case: &OligoCase, inp: &str, outp: &str, prefix: &[u8], opts: ExecOpts) -> (Result<Result<(), String>, String>, ExecResult, Vec<u8>) {
-    let _ = std::fs::remove_file(outp);
+    // the output of the previous case is deliberately left in place: sizes go up and down over the same path
     let (r, res) = execute(prefix, opts, || {
         let mut oc = OligoComputer::new(inp.to_string(), outp.to_string(), case.k);
         oc.set_threads(case.threads);
